@@ -155,7 +155,13 @@ def findings(lab: Lab, q: str, n: int, full: bool, repo: bool):
     return _findings_real(lab, q, n, full, repo)
 
 
-def _findings_real(lab: Lab, q: str, n: int, full: bool, repo: bool):
+def findings_again(lab: Lab, q: str, repo: bool, n: int = 12):
+    """print_findings twice on ONE report built through the repo's constructors: a short listing (full=False), then the full one
+    -> tags shown by the second call"""
+    return _findings_real(lab, q, n, True, repo, first_call_full=False)[1]
+
+
+def _findings_real(lab: Lab, q: str, n: int, full: bool, repo: bool, first_call_full=None):
     """the same observation on a report built through the repo's constructors (whatever method of Report the renderer uses):
     n functions longer than 30 lines (100, 99, ...) and three that are not (30, 29, 7)"""
     from .report_eval import ReportLab
@@ -192,6 +198,13 @@ def _findings_real(lab: Lab, q: str, n: int, full: bool, repo: bool):
             kwargs["full"] = full
         else:
             raise Unknown(f"print_findings parameter {p_}")
+    if first_call_full is not None:
+        # an earlier listing of the same report object, with another setting
+        k0 = dict(kwargs)
+        if "full" in k0:
+            k0["full"] = first_call_full
+        rl.it.call(fn, list(args), k0)
+        del run.effects[:]
     rl.it.call(fn, args, kwargs)
     texts = []
     for name, aa, kw in run.effects:
